@@ -2,7 +2,7 @@
 # usage: tools/try_seeded.sh <patch.diff> <Cxx> [Cyy ...]
 # applies a seeded change to /repo, runs the quick checks, and restores /repo.
 set -u
-PATCH="$1"; shift
+PATCH="$(readlink -f "$1")"; shift
 cd /verif
 git -C /repo diff --quiet || { echo "/repo is not clean"; exit 2; }
 git -C /repo apply "$PATCH" || { echo "patch does not apply"; exit 2; }
